@@ -379,7 +379,7 @@ func (f *frame) contractCall(callee *ssa.Function, fc *FuncContract, args []SV, 
 			f.throws[len(f.throws)-1].cond = and(cs...)
 		}
 		for _, en := range fc.Ensures {
-			ctx := &evalCtx{f: f, pkg: pkg, bind: nb, heap: f.curHeap, oldHeap: f.curHeap, oldBind: bind, what: "ensures of " + key}
+			ctx := &evalCtx{f: f, pkg: pkg, bind: nb, heap: f.curHeap, oldHeap: f.curHeap, oldBind: bind, what: "ensures of " + key, calleeSide: true}
 			f.assume(ctx.evalAssume(en.Text))
 		}
 		e.usedContracts[key] = true
@@ -400,7 +400,7 @@ func (f *frame) contractCall(callee *ssa.Function, fc *FuncContract, args []SV, 
 			f.restorePreserved(fc, pkg, oldHeap)
 			f.restoreOnlyAt(fc, bind, oldHeap)
 			for _, uw := range fc.Unwind {
-				ctx := &evalCtx{f: f, pkg: pkg, bind: bind, heap: f.curHeap, oldHeap: oldHeap, oldBind: bind, what: "unwind_ensures of " + key}
+				ctx := &evalCtx{f: f, pkg: pkg, bind: bind, heap: f.curHeap, oldHeap: oldHeap, oldBind: bind, what: "unwind_ensures of " + key, calleeSide: true}
 				f.assume(ctx.evalAssume(uw.Text))
 			}
 		})
@@ -450,6 +450,7 @@ func (f *frame) contractCall(callee *ssa.Function, fc *FuncContract, args []SV, 
 		if cs.As == "" {
 			continue
 		}
+		nb["called!"+cs.As] = f.resultHavoc(base+"!called", types.Typ[types.Bool])
 		if cf := e.E.L.Funcs[cs.Callee]; cf != nil && cf.Signature.Results().Len() == 1 {
 			g := f.resultHavoc(base+"!ghost", cf.Signature.Results().At(0).Type())
 			nb[cs.As] = g
@@ -463,7 +464,7 @@ func (f *frame) contractCall(callee *ssa.Function, fc *FuncContract, args []SV, 
 		}
 	}
 	for _, en := range fc.Ensures {
-		ctx := &evalCtx{f: f, pkg: pkg, bind: nb, heap: f.curHeap, oldHeap: oldHeap, oldBind: bind, what: "ensures of " + key}
+		ctx := &evalCtx{f: f, pkg: pkg, bind: nb, heap: f.curHeap, oldHeap: oldHeap, oldBind: bind, what: "ensures of " + key, calleeSide: true}
 		f.assume(ctx.evalAssume(en.Text))
 	}
 	e.usedContracts[key] = true
@@ -603,8 +604,15 @@ func (f *frame) inlineCallWith(callee *ssa.Function, fc *FuncContract, args []SV
 				term = ite(conds[k], v.term, term)
 			}
 		}
+		if len(nf.rets) == 1 && strings.HasPrefix(term, "(- ") {
+			// the single return value is a reference allocated by the inlined body: keep the
+			// term itself, so that the caller still recognises its own allocation
+			return SV{t: t, term: term}
+		}
 		return SV{t: t, term: e.define(e.fresh(base+".res"), e.R.sortOf(t), term)}
 	}
+	// allocations of the inlined body are allocations of this activation
+	f.locals = append(f.locals, nf.locals...)
 	if tup, ok := resT.(*types.Tuple); ok {
 		var parts []SV
 		for i := 0; i < tup.Len(); i++ {
@@ -1100,6 +1108,9 @@ func (top *frame) ghostBindFrom(extra map[string]SV, heap Heap) {
 
 func ghostCallKey(k int) string { return fmt.Sprintf("ghost!call!%d", k) }
 
+// ghostCntKey: the number of matching calls so far (ncalls(name) in contracts).
+func ghostCntKey(k int) string { return fmt.Sprintf("ghost!cnt!%d", k) }
+
 // noteCall updates the ghost flags of the function's "calls" clauses at a call site.
 func ghostRetKey(k int) string { return fmt.Sprintf("ghost!ret!%d", k) }
 
@@ -1160,22 +1171,44 @@ func (f *frame) noteCall(key string, args []SV) map[int]string {
 			continue
 		}
 		bind := top.selfBind()
-		ctx := &evalCtx{f: f, pkg: top.fn.Pkg.Pkg, bind: bind, heap: f.curHeap, oldHeap: top.entryHeap, oldBind: bind, what: "calls clause of " + top.contract.Key}
+		top.ghostBindFrom(bind, f.curHeap)
+		ctx := &evalCtx{f: f, pkg: top.fn.Pkg.Pkg, bind: bind, heap: f.curHeap, oldHeap: top.entryHeap, oldBind: top.selfBind(), what: "calls clause of " + top.contract.Key}
 		ctx.lookup = func(name string) (SV, bool) { return top.resolveName(name) }
 		var eqs []string
-		for i, a := range cs.Args {
-			if a == "_" {
+		resolved := func() (ok bool) {
+			// an argument pattern over a local that is not computed yet at this call site
+			// cannot be compared: no match for a "calls" clause (harder to establish), a
+			// match for a "nocall" clause (harder to establish)
+			defer func() {
+				if r := recover(); r != nil {
+					if ce, isCE := r.(contractErr); isCE && strings.Contains(ce.msg, "unknown identifier") {
+						ok = false
+						return
+					}
+					panic(r)
+				}
+			}()
+			for i, a := range cs.Args {
+				if a == "_" {
+					continue
+				}
+				if args[i].loc != nil || args[i].tuple != nil {
+					continue
+				}
+				ex, err := parseExprText(a)
+				if err != nil {
+					cfail("calls clause: %v", err)
+				}
+				v := ctx.materialise(ctx.coerce(ctx.eval(ex), args[i].t))
+				eqs = append(eqs, fmt.Sprintf("(= %s %s)", v.term, args[i].term))
+			}
+			return true
+		}()
+		if !resolved {
+			if !cs.Negative {
 				continue
 			}
-			if args[i].loc != nil || args[i].tuple != nil {
-				continue
-			}
-			ex, err := parseExprText(a)
-			if err != nil {
-				cfail("calls clause: %v", err)
-			}
-			v := ctx.materialise(ctx.coerce(ctx.eval(ex), args[i].t))
-			eqs = append(eqs, fmt.Sprintf("(= %s %s)", v.term, args[i].term))
+			eqs = nil
 		}
 		gk := ghostCallKey(k)
 		cur, ok := f.curHeap[gk]
@@ -1185,6 +1218,15 @@ func (f *frame) noteCall(key string, args []SV) map[int]string {
 		m := e.define(e.fresh(gk+"!m"), "Bool", and(eqs...))
 		matches[k] = m
 		f.curHeap[gk] = e.define(e.fresh(gk), "Bool", or(cur, m))
+		if cs.As != "" {
+			ck := ghostCntKey(k)
+			e.R.heapDecl[ck] = "(_ BitVec 64)"
+			cnt, ok := f.curHeap[ck]
+			if !ok {
+				cnt = bvLit(0, 64)
+			}
+			f.curHeap[ck] = e.define(e.fresh(ck), "(_ BitVec 64)", fmt.Sprintf("(bvadd %s (ite %s %s %s))", cnt, m, bvLit(1, 64), bvLit(0, 64)))
+		}
 	}
 	return matches
 }
@@ -1294,7 +1336,7 @@ func (f *frame) assumeSlot(slot *FuncContract, clauses []*Clause, args []SV, res
 		nb["result"] = res
 	}
 	for _, cl := range clauses {
-		ctx := &evalCtx{f: f, pkg: f.enc.E.typesPkg(slot.Pkg), bind: nb, heap: f.curHeap, oldHeap: oldHeap, oldBind: bind, what: slot.Key}
+		ctx := &evalCtx{f: f, pkg: f.enc.E.typesPkg(slot.Pkg), bind: nb, heap: f.curHeap, oldHeap: oldHeap, oldBind: bind, what: slot.Key, calleeSide: true}
 		f.assume(ctx.evalAssume(cl.Text))
 	}
 }
@@ -1432,8 +1474,21 @@ func (f *frame) atCallObligations(key string, args []SV, pos token.Pos) {
 	if top == nil || top.contract == nil || len(top.contract.AtCalls) == 0 || f != top {
 		return
 	}
+	siteLoop := 0
+	if f.curInstr != nil && f.curInstr.Block() != nil {
+		best := -1
+		for _, li := range f.loopHeads {
+			if li.blocks[f.curInstr.Block().Index] && (best < 0 || len(li.blocks) < best) {
+				best = len(li.blocks)
+				siteLoop = li.ord
+			}
+		}
+	}
 	for k, cs := range top.contract.AtCalls {
 		if cs.Callee != key {
+			continue
+		}
+		if cs.Loop >= 0 && cs.Loop != siteLoop {
 			continue
 		}
 		if e.atCallSeen == nil {
